@@ -93,7 +93,8 @@ CLAIMED = {
              'replace substitutes with (pattern, replacement, text) in their roles, keeps the new-line out of the '
              'substitution exactly with -preserve-new-lines, leaves lines not selected by -at unchanged; filter keeps '
              'exactly the matching lines as read (grep = filter on contents matches); identity returns its input; no '
-             'construction in the matcher / transformer packages cross-wires two arguments. 21 own-made mutants '
+             'construction in the matcher / transformer packages cross-wires two arguments; the three strip variants '
+             'give the documented text for every text of 0-3 lines (symbolic lines, forks on empty / blank). 26 own-made mutants '
              '(tools/selftest_mutants.py) are each reported by the rule of their clause.',
         design='DESIGN.md section 5, C05',
         note='Composition with | is decided under C06-g / C10-h, the logical operators under C06-d, agreement of '
